@@ -39,11 +39,18 @@ func execNetworkSimplex(g *graph.DGraph, params graph.Params) {
 		},
 	)
 
+	// the separation between neighbours in the auxiliary graph is a distance between node centers,
+	// so the layers of the auxiliary graph are the x coordinates of the centers
+	minX := math.Inf(+1)
 	for _, l := range g.Layers {
 		for _, n := range l.Nodes {
 			l.H = max(l.H, n.H)
-			n.X = float64(p.nodes[n].Layer)
+			n.X = float64(p.nodes[n].Layer) - n.W/2
+			minX = min(minX, n.X)
 		}
+	}
+	for _, n := range g.Nodes {
+		n.X -= minX
 	}
 }
 
